@@ -501,10 +501,8 @@ func seekToRangeStart(data io.Seeker, ra *ByteRange, size int64) error {
 			if ra.To != nil {
 				return fmt.Errorf("invalid range: negative start without a nil end")
 			}
-			start = size + ra.From
-			if start < 0 {
-				return fmt.Errorf("invalid range: negative start bigger than the file size")
-			}
+			// A suffix longer than the file selects the whole file (RFC 9110, 14.1.2).
+			start = max(size+ra.From, 0)
 		} else {
 			start = ra.From
 		}
